@@ -196,7 +196,8 @@ impl Read for SchedReader<'_> {
         self.call += 1;
         if Some(call) == self.fail_at {
             self.failed = true;
-            return Err(io::Error::new(io::ErrorKind::Other, "injected I/O error"));
+            let kinds = [io::ErrorKind::Other, io::ErrorKind::WouldBlock, io::ErrorKind::UnexpectedEof, io::ErrorKind::TimedOut, io::ErrorKind::BrokenPipe, io::ErrorKind::InvalidInput];
+            return Err(io::Error::new(kinds[call % kinds.len()], "injected I/O error"));
         }
         let n = match self.chunks.get(call) {
             Some(0) => {
